@@ -22,7 +22,9 @@ RULE = (
     "every district of the graph; the Lemma-3 marginal Q[A] of the ancestral set A = An(C) in G[T] and, from that non-atomic "
     "Q[A], the Lemma-4 c-factor of EVERY district of G[A] are checked the same way. (2) identify_district_variables(C, T, Q[T]) must return None or an expression "
     "that evaluates to P(C | do(V minus C)) at every assignment (exact Fractions, truth by truncated factorisation). A None "
-    "is compared with the set-level IDENTIFY recursion as a label only. Non-trivial = C is a proper subset of T and an "
+    "is compared with the set-level IDENTIFY recursion as a label only. (3) When every node outside T is an unconfounded "
+    "root (forced in a third of the cases), IDENTIFY is also run with Q[T] written as one atomic term, P(T | V minus T) and "
+    "PP[pi1](T | V minus T): any answer must again equal Q[C]. Non-trivial = C is a proper subset of T and an "
     "answer was returned after at least one Lemma-4/Lemma-3 step; distinct = distinct (graph, T, C, topo)."
 )
 ASSUMPTIONS = [
@@ -33,7 +35,7 @@ BUDGET = {
     "quick": dict(examples=100, shards=16, seconds=200),
     "thorough": dict(examples=1500, shards=16, seconds=2400),
 }
-ESSENTIAL_LABELS = {t: ["answered-proper-subset", "fail", "lemma4", "lemma1", "lemma4-all-districts"] for t in ("quick", "thorough")}
+ESSENTIAL_LABELS = {t: ["answered-proper-subset", "fail", "lemma4", "lemma1", "lemma4-all-districts", "atomic-conditioned-proper-subset"] for t in ("quick", "thorough")}
 
 
 @st.composite
@@ -45,6 +47,8 @@ def _case(draw, gs):
         "mseed": draw(st.integers(0, 2**32)),
         "max_card": draw(st.sampled_from([2, 2, 3])),
         "clique": draw(st.booleans()),
+        # every node outside T made an unconfounded root, so that Q[T] is also the ATOMIC conditional P(T | V minus T)
+        "exo": draw(st.integers(0, 2)) == 0,
     }
 
 
@@ -98,9 +102,13 @@ def check(case) -> Outcome:
 
     g = case["g"]
     t, c, topo = derive(case)
+    if case.get("exo"):
+        g = {"nodes": g["nodes"], "di": [e for e in g["di"] if e[1] in t], "bi": [e for e in g["bi"] if e[0] in t and e[1] in t]}
     graph = build_graph(g)
     out = Outcome(key=f"{graph_key(g)}|T={','.join(t)}|C={','.join(c)}|topo={','.join(topo)}")
     labels = {f"n={len(g['nodes'])}", f"|T|={len(t)}"}
+    outside = sorted(set(g["nodes"]) - set(t))
+    atomic_ok = all(e[1] not in outside for e in g["di"]) and all(e[0] not in outside and e[1] not in outside for e in g["bi"])
     vt = [V(x) for x in topo]
 
     def fail(kind, **kw):
@@ -182,6 +190,29 @@ def check(case) -> Outcome:
             ref = False
             break
         tt = rg.sub(a).district_of(cc)
+    # (2b) the same question with Q[T] supplied as one atomic (population) probability term
+    if atomic_ok:
+        for tag, q_atomic in _atomic_forms(t, outside):
+            labels.add("atomic-Q[T]:" + tag + ("-conditioned" if outside else ""))
+            try:
+                with ReentryGuard(tian_id, "identify_district_variables", _key):
+                    r2 = tian_id.identify_district_variables(input_variables=frozenset(V(x) for x in c), input_district=frozenset(V(x) for x in t), district_probability=q_atomic, graph=graph, topo=vt)
+            except StepBudgetExceeded as e:
+                return fail("identify_district_variables-does-not-terminate", q_t=q_atomic.to_y0(), exc=str(e))
+            except Exception as e:
+                return fail("identify_district_variables-raised", q_t=q_atomic.to_y0(), exc=repr(e)[:300])
+            if (r2 is None) != (r is None):
+                labels.add("verdict-depends-on-how-Q[T]-is-written(label only)")
+            if r2 is None:
+                continue
+            if not isinstance(r2, Expression):
+                return fail("non-expression-returned", q_t=q_atomic.to_y0(), type=str(type(r2)))
+            for k, scm in enumerate(scms):
+                bad = _compare(r2, scm, c)
+                if bad:
+                    return fail("identify(atomic Q[T]):" + bad.pop("kind"), q_t=q_atomic.to_y0(), expression=r2.to_y0()[:2000], model=scm.params(), **bad)
+            if outside and 0 < len(c) < len(t):
+                labels.add("atomic-conditioned-proper-subset")
     if r is None:
         labels.add("fail")
         if ref:
@@ -203,6 +234,17 @@ def check(case) -> Outcome:
         out.nontrivial = True
     out.labels = sorted(labels)
     return out
+
+
+def _atomic_forms(t, outside):
+    """Q[T] written as ONE probability term, P(T | V minus T) -- valid when every node outside T is an unconfounded root
+    (conditioning on it equals intervening on it) -- as a plain and as a population probability."""
+    from y0.dsl import PP, P, Population
+
+    ch = [V(x) for x in t]
+    pa = [V(x) for x in outside]
+    dist = (ch[0].joint(ch[1:]) | pa) if pa else ch[0].joint(ch[1:])
+    return [("P", P(dist)), ("PP", PP[Population("pi1")](dist))]
 
 
 LEVEL_TEXT = (
